@@ -83,6 +83,18 @@ func VerifC13Seek() {
 	size := int64(len(seekData))
 	rsc := NewReadSeekCloser(peer, req, peer.body(seekData), size)
 	pos := int64(0) // the logical position
+	if verifrt.Param("pre", 0) != 0 {
+		// start from a valid state other than the initial one (representation invariant: offset is
+		// the logical position and the body is positioned there): start, two before the end, end
+		pos = []int64{0, size - 2, size}[verifrt.Choice(3)]
+		r := rsc.(*readSeekCloser)
+		r.offset = pos
+		if pos >= size {
+			r.rc = http.NoBody
+		} else {
+			r.rc = peer.body(seekData[pos:])
+		}
+	}
 	for step := 0; step < k; step++ {
 		if verifrt.Bool() {
 			n := 1 + verifrt.Choice(3)
